@@ -222,7 +222,20 @@ def judge_factory(cfg):
                 probs.append(("pivot not drawn at all (fallback constant)", None))
                 return probs
             raw = r["uniform"]["answer"]
-            piv = float(int(raw)) if int_mode else raw
+            # integer mode: the pivot is a whole number obtained from the draw (truncation today; rounding, floor or
+            # ceiling would satisfy the statement as well) - the one the sample was really built with is identified
+            import math as _m
+            cands = [raw] if not int_mode else list(dict.fromkeys(
+                [float(int(raw)), float(_m.floor(raw)), float(_m.ceil(raw)), float(round(raw))]))
+            piv = cands[0]
+            for cand in cands:
+                exp_c = set()
+                for (s_, e_, lab_) in byann.get(who, []):
+                    sh_ = cand + binf - bsup if s_ + cand > bsup else cand
+                    exp_c.add((s_ + sh_, e_ + sh_, lab_))
+                if any(match_sets(exp_c, set((u[0], u[1], u[2]) for u in us)) for _, us in anns):
+                    piv = cand
+                    break
             ua, ub = r["uniform"]["a"], r["uniform"]["b"]
             if not (binf - 1e-9 <= ua <= ub <= bsup + 1e-9):
                 probs.append((f"pivot drawn from [{ua}, {ub}] which is not within the bounds [{binf}, {bsup}]", None))
